@@ -4,7 +4,7 @@ CONSTANTS
   Heads <- HeadsChain
   Levels = {}
   Calls = {}
-  TextBytes = {97}
+  TextBytes = {5}
   MaxText = 1
   Ops = {"abort"}
   LogMax = 256
